@@ -150,6 +150,29 @@ def given_edges(method, series):
         return [float(v) for v in np.histogram_bin_edges(a, bins=method)[1:-1]]
 
 
+def quantile_rank_divergent(values, n_bins):
+    """True when numpy's float evaluation of the inverted-cdf rank, index = ceil(n * fl(k / m) - 1), selects another order
+    statistic than exact arithmetic for some k (a floating-point artefact of np.nanquantile, outside the exact model).
+    values: the feature as the harness holds it (None / 'nan' / NaN = missing); m = effective number of bins."""
+    import math
+    from fractions import Fraction
+
+    def missing(v):
+        return v is None or v == "nan" or (isinstance(v, float) and v != v)
+
+    n = sum(1 for v in values if not missing(v))
+    m = max(1, n_bins - (1 if any(missing(v) for v in values) else 0))
+    if n == 0 or m < 2:
+        return False
+    q = np.arange(1, m) / m
+    for k in range(1, m):
+        v = n * float(q[k - 1]) - 1.0
+        idx = math.floor(v) if v == math.floor(v) else math.floor(v) + 1
+        if idx != math.ceil(Fraction(k * n, m) - 1):
+            return True
+    return False
+
+
 def gen_string_feature(rng, n, dtype=None):
     dtype = dtype or rng.choice(["str", "str", "cat", "enum"])
     k = rng.randint(1, min(10, len(CATS)))
